@@ -61,7 +61,7 @@ def render_query(q):
     if f == "pr_quant": return "Pr%s(%s %s)" % (bound(q["b"], q["runs"]), path[q["path"]], r)
     if f == "pr_until": return "Pr%s(%s U %s)" % (bound(q["b"], q["runs"]), p, r)
     if f == "pr_qual": return "Pr%s(%s %s) %s %s" % (bound(q["b"]), path[q["path"]], r, ">=" if q["cmp"] == "ge" else "<=", q["prob"])
-    if f == "pr_cmp": return "Pr%s(%s %s) >= Pr%s(%s %s)" % (bound(q["b"]), path[q["path"]], r, bound(q["b2"]).replace("10", "5"), path[q["path2"]], p)
+    if f == "pr_cmp": return "Pr%s(%s %s) >= Pr%s(%s %s)" % (bound(q["b"], q.get("runs", 0)), path[q["path"]], r, bound(q["b2"], q.get("runs2", 0) and q["runs2"] + 2).replace("10", "5"), path[q["path2"]], p)
     if f == "exp": return "E%s(%s: P.v)" % (bound(q["b"], q["runs"] or 5), q["agg"])
     if f in ("sim", "sim_reach", "sim_reach_n"):
         es = "P.v" if q["n"] == 1 else "P.v, P.x"
